@@ -28,14 +28,15 @@ verus! {
 }
 //@ layout v9 +append
 verus! {
+pub type VfPair = V9FieldPair;
+}
+//@ include records_enc_spec.rs
+verus! {
 pub type Records = Vec<BTreeMap<usize, V9FieldPair>>;
-/// wire image of the records of a data flowset (opaque here: produced by the R5 stub below)
-pub uninterp spec fn v9_records_enc(s: Seq<BTreeMap<usize, V9FieldPair>>) -> Seq<u8>;
-// R5 stub for `for data_field in data.fields.iter() { for (_, (_, v)) in data_field.iter() { result.extend_from_slice(&v.to_be_bytes()?); } }`
-#[verifier::external_body]
-pub fn vf_export_records(result: &mut Vec<u8>, fields: &Records) -> (r: Result<(), VfError>)
-    ensures r is Ok ==> final(result)@ == old(result)@ + v9_records_enc(fields@),
-{ unimplemented!() }
+/// wire image of the records of a data flowset (V.v9.export_records)
+pub open spec fn v9_records_enc(s: Seq<BTreeMap<usize, V9FieldPair>>) -> Seq<u8> { recs_enc(s, s.len() as int) }
+// R5 stub for the data-record loop; its contract is discharged by V.v9.export_records on the loop itself
+//@ stub stubs/v9_export_records.rs
 
 pub open spec fn tf_enc(f: TemplateField) -> Seq<u8> { enc16(f.field_type_number) + enc16(f.field_length) }
 pub open spec fn sf_enc(f: OptionsTemplateScopeField) -> Seq<u8> { enc16(f.field_type_number) + enc16(f.field_length) }
@@ -113,7 +114,7 @@ impl V9 {
 //@       assert(*template == options_templates.templates@[it3.index@ as int]);
 //@       assert(result@ =~= c1 + (otpls_enc(options_templates.templates@.take(it3.index@ as int)) + otpl_enc(*template))); }
 //@   after "result.extend_from_slice(&options_templates.padding);": proof { lemma_take_all(options_templates.templates@); }
-//@   opaque "for data_field in data.fields.iter()": vf_export_records(&mut result, &data.fields)?;
+//@   opaque "for data_field in data.fields.iter()": vf_export_records(&mut result, data)?;
 //@   beforefor 8: let ghost d1 = result@;
 //@   forloop 8: it8 | invariant result@ == d1 + scopes_enc(options_data.scope_fields@.take(it8.index@ as int)), it8.index@ <= options_data.scope_fields@.len()
 //@   forend 8: proof { lemma_take_step(options_data.scope_fields@, it8.index@ as int); assert(*scope_field == options_data.scope_fields@[it8.index@ as int]);
